@@ -396,6 +396,11 @@ where
             .try_inverse()
             .ok_or(Error::MatrixInversion)?;
         let covariance_matrix = HTH_inv * sigma * sigma;
+        // for badly scaled problems (in particular in single precision) the
+        // inversion can overflow and hand back non-finite entries instead of failing
+        if !covariance_matrix.iter().all(|v| Float::is_finite(*v)) {
+            return Err(Error::MatrixInversion);
+        }
 
         // we don't calculate R^2, see the notes on the documentation
         // of this struct
